@@ -161,6 +161,7 @@ struct Task
 	std::map<int, std::vector<uint64_t>> ref ;
 	bool modified_since_open = false ;
 	int64_t emb_k = -1, emb_len = 0 ;
+	bool auto_on = false, update_requested = false ;
 	SimFileP emb_file ;
 	bool done () const { return !ops || pc >= ops->size () ; }
 } ;
@@ -371,6 +372,7 @@ struct Exec
 		t.pos_known = true ;
 		t.ref.clear () ;
 		t.modified_since_open = false ;
+		t.auto_on = false ; t.update_requested = false ;
 		Digest d = digest (t) ;
 		t.seekable = d.ok ? d.v [DG_SEEKABLE] != 0 : t.info.seekable != 0 ;		// sf_open zeroes SF_INFO.seekable in write mode
 		t.ch = t.info.channels ;
@@ -385,7 +387,7 @@ struct Exec
 		{	SF_FORMAT_INFO fi ; fi.format = t.info.format & SF_FORMAT_TYPEMASK ;
 			SF_FORMAT_INFO si ; si.format = t.info.format & SF_FORMAT_SUBMASK ;
 			// SF_FORMAT_DWVW_N is a named public encoding (AIFF files with an unusual DWVW bit width are read as such) that the format enumeration does not list
-			if (sf_command (nullptr, SFC_GET_FORMAT_INFO, &fi, sizeof (fi)) || (sf_command (nullptr, SFC_GET_FORMAT_INFO, &si, sizeof (si)) && si.format != SF_FORMAT_DWVW_N))
+			if (sf_command (nullptr, SFC_GET_FORMAT_INFO, &fi, sizeof (fi)) || (sf_command (nullptr, SFC_GET_FORMAT_INFO, &si, sizeof (si)) && (t.info.format & SF_FORMAT_SUBMASK) != SF_FORMAT_DWVW_N))
 				viol (t, "info.format_unknown", "-", "format word names no known container/encoding") ;
 		}
 		if (t.mode == SFM_READ && m.written && m.clean && !m.corrupted && !t.faulted && m.fmt)
@@ -646,6 +648,7 @@ struct Exec
 	// ---- write
 	void op_write (Task &t, const J &op, Rec &r)
 	{	if (!t.sf) { r.skipped = true ; return ; }
+		t.update_requested = false ;		// an explicit update covers what was written before it
 		int T = stype_from (op.gets ("T", plan.at ("cfg").gets ("T", "short"))) ;
 		bool fr = op.geti ("fr", 0) != 0 ;
 		int64_t n = op.geti ("n", 1) ;
@@ -820,8 +823,8 @@ struct Exec
 		os.begin_op (t.id, (int) t.pc, "sf_command", budget_for (t, 0)) ;
 		GUARD (t, r) ;
 		int rc = 0 ;
-		if (id == "update_header") rc = sf_command (t.sf, SFC_UPDATE_HEADER_NOW, nullptr, 0) ;
-		else if (id == "auto_header") rc = sf_command (t.sf, SFC_SET_UPDATE_HEADER_AUTO, nullptr, arg ? SF_TRUE : SF_FALSE) ;
+		if (id == "update_header") { rc = sf_command (t.sf, SFC_UPDATE_HEADER_NOW, nullptr, 0) ; t.update_requested = true ; }
+		else if (id == "auto_header") { rc = sf_command (t.sf, SFC_SET_UPDATE_HEADER_AUTO, nullptr, arg ? SF_TRUE : SF_FALSE) ; t.auto_on = arg != 0 ; }
 		else if (id == "clipping") rc = sf_command (t.sf, SFC_SET_CLIPPING, nullptr, arg ? SF_TRUE : SF_FALSE) ;
 		else if (id == "norm_float") rc = sf_command (t.sf, SFC_SET_NORM_FLOAT, nullptr, arg ? SF_TRUE : SF_FALSE) ;
 		else if (id == "norm_double") rc = sf_command (t.sf, SFC_SET_NORM_DOUBLE, nullptr, arg ? SF_TRUE : SF_FALSE) ;
@@ -1460,6 +1463,9 @@ struct Exec
 	void op_crash (Task &t, const J &op, Rec &r)
 	{	r.api = "crash" ; r.skipped = true ;
 		if (!t.sf || t.mode == SFM_READ || t.stop) return ;
+		// a crash point only means something after a header update was asked for (explicitly since the last audio write, or by
+		// the automatic mode): the shrinker must not be able to drop the update and keep the crash point
+		if (!t.auto_on && !t.update_requested) return ;
 		SimFileP src = store_file (t.store) ;
 		SimFileP img = std::make_shared<SimFile> () ; img->data = src->data ; img->name = "crashimg" ;
 		int T = stype_from (op.gets ("T", plan.at ("cfg").gets ("T", "short"))) ;
